@@ -6,7 +6,9 @@ import vlib
 from vlib import enc, dec, enc_diff, dec_diff, canon, canon_diff, plain, exc_class
 import gen_json
 
-THEOREMS = ["Nbdime.C02_list_roundtrip", "Nbdime.C02_list_roundtrip_strict", "Nbdime.C02_list_roundtrip_pyEq_partial", "Nbdime.C02_pyEq_refuted",
+THEOREMS = ["Nbdime.C02_roundtrip_partial", "Nbdime.diffAt_generic_roundtrip", "Nbdime.stringsLinewise_roundtrip", "Nbdime.diffDicts_roundtrip",
+            "Nbdime.diffLists_single_roundtrip", "Nbdime.multilevel_roundtrip", "Nbdime.snakesML_in", "Nbdime.patchString_lines",
+            "Nbdime.diffStringsByChar_ok", "Nbdime.exOracle_ok", "Nbdime.C02_list_roundtrip", "Nbdime.C02_list_roundtrip_strict", "Nbdime.C02_list_roundtrip_pyEq_partial", "Nbdime.C02_pyEq_refuted",
             "Nbdime.C02_seq_roundtrip_partial", "Nbdime.diffFromLcs_eq_dfl", "Nbdime.lcsBack_matching", "Nbdime.patchList_map_toOp", "Nbdime.Abs.patch_dfl",
             "Nbdime.J.beq_eq", "Nbdime.J.pyEq_eq"]
 
@@ -142,6 +144,7 @@ def check_cases(ctx, cases, record_mismatch=True):
         ctx.cov['traces_validated_against_impl'] += 1
         if 'ok' not in m_diff or json.dumps(m_diff['ok'], sort_keys=True) != json.dumps(enc_diff(d), sort_keys=True):
             mismatches.append(dict(base, kind='corr-diff', impl=enc_diff(d), model=m_diff))
+    vlib.check_oracle_hypothesis(ctx, drv, [(memo, {'a': enc(a), 'b': enc(b)}) for (stream, a, b), (r, memo) in zip(cases, impl)])
     return mismatches
 
 
